@@ -194,6 +194,7 @@ func (fv *FuncVC) obligeAt(guard Term, kind, label string, props []string, goal 
 			splits, splitBlk = nil, nil
 		}
 	}
+	fv.citeAt(guard)
 	fv.obls = append(fv.obls, &Obligation{Name: name, Kind: kind, Props: props, Func: fv.name, Pos: fv.posOf(pos), Desc: desc, Guard: guard, Goal: goal, fv: fv, Bounded: bounded, Splits: splits, SplitBlk: splitBlk, Blk: blk})
 }
 
@@ -604,7 +605,11 @@ func (fv *FuncVC) scanLoopEffects(li *loopInfo) {
 				}
 				li.havocAll = true
 			case *ssa.Next:
-				li.havoc["iter"] = true
+				if r, ok := x.Iter.(*ssa.Range); ok {
+					if m, ok := r.X.Type().Underlying().(*types.Map); ok {
+						li.havoc[fv.iterHeap(m)] = true
+					}
+				}
 			}
 		}
 	}
@@ -784,4 +789,32 @@ func (fv *FuncVC) contractHeaps(cc *FuncContract, com *ssa.CallCommon) (heaps []
 	sort.Strings(heaps)
 	fv.effCache[key] = heaps
 	return heaps, true
+}
+
+// citeAt: the lemmas a contract cites are valid in every state; they are assumed (in the
+// current state) at every point where an obligation is generated.
+func (fv *FuncVC) citeAt(guard Term) {
+	if fv.c == nil || len(fv.c.Cites) == 0 || fv.st == nil {
+		return
+	}
+	for _, name := range fv.c.Cites {
+		var lem *Lemma
+		for _, l := range fv.P.lemmas {
+			if l.Name == name {
+				lem = l
+			}
+		}
+		if lem == nil {
+			specFail("%s cites unknown lemma %s", fv.name, name)
+		}
+		env := &Env{e: fv.e, vars: map[string]TV{}, st: fv.st, old: fv.entry, pkg: lem.Pkg, alloc0: fv.alloc0}
+		t := env.trBool(lem.Body)
+		key := "cite:" + t
+		if fv.e.declared[key] {
+			continue
+		}
+		fv.e.declared[key] = true
+		fv.addBg("(assert "+t+")", 0)
+		fv.assumptions["cites lemma "+name+" (proved separately: obligation lemma:"+name+")"] = true
+	}
 }
